@@ -146,9 +146,12 @@ Theorem C06_steps_per_call : forall orc e me f, CodecDecCostBound.bound_level or
 Proof. exact CodecDecCostBound.bound_all. Qed.
 Print Assumptions C06_steps_per_call.
 
-(* the query decoder: a step count for QueryToProto is NOT proved (its loops are: one iteration per key,
-   one per path component, one per value; container-valued parameters run the descent above on their own
-   text); the crash / deadline oracle of the query stream is the only check of its time clause *)
+(* the query decoder: no separate step counter.  Its loops are structural recursions of the model — query_loop
+   over the list of keys, query_at over the components of a dotted path, the element loops over the value
+   list — so their iteration counts are the lengths of those lists by definition; the one non-structural
+   part, the descent on the text of a container-valued parameter, is object_body / oneof_body on that text's
+   tokens, bounded by C06_steps_per_call (at most tokens + 1 steps).  A single inequality for QueryToProto as a
+   whole is not stated. *)
 Definition C06_query_time_clause_unproved : Prop := True.
 
 (* non-vacuity: a recursive environment; a document exercising object, array, map, oneof
